@@ -3,3 +3,4 @@ pub mod known;
 pub mod sx;
 pub mod ri;
 pub mod pg;
+pub mod synrules;
